@@ -1,13 +1,16 @@
 // stack_sim - link layer configurations, glue and plan generation for the whole-peripheral world (see stack_world.hpp)
 //
-// Compiled five times (-DSTACK_PART=0..4, see Makefile) so that the twelve link layer instantiations build in parallel:
-// part 0: configurations 0-2 + harness and main, 1: 3-4, 2: 5-6 (encryption), 3: 7-9, 4: 10-11 (real nRF52 front end)
+// Compiled six times (-DSTACK_PART=0..5, see Makefile) so that the twelve link layer instantiations build in parallel:
+// part 0: configurations 0-2 + harness and main, 1: 3-4, 2: 5-6 (encryption), 3: 7-9, 4: 10-11 (real nRF52 front end), 5: 12-13 (encryption on the real front end)
 #ifndef STACK_PART
 #define STACK_PART 0
 #endif
 #include "stack_world.hpp"
 #if STACK_PART >= 3
 #include "nrf_bridge.hpp"
+#endif
+#if STACK_PART == 5
+#include <openssl/evp.h>
 #endif
 
 #include <bluetoe/server.hpp>
@@ -181,6 +184,23 @@ using ll4n = ll::link_layer< gatt_server, stack::nrf_bridge_radio,
     ll::advertising_interval< 50 > >;
 #endif
 
+#if STACK_PART == 5
+// link encryption on the real front end: PDU layout with the gap byte, packet counters, the binding's own security tool box
+using ll5n = ll::link_layer< gatt_server_enc, stack::nrf_bridge_radio_enc,
+    ll::connection_callbacks< stack::callback_recorder, recorder >,
+    bluetoe::legacy_security_manager,
+    bluetoe::bonding_data_base< bond_db_t, bond_db >,
+    ll::advertising_interval< 40 > >;
+
+using ll6n = ll::link_layer< gatt_server_enc, stack::nrf_bridge_radio_enc,
+    ll::connection_callbacks< stack::callback_recorder, recorder >,
+    bluetoe::legacy_security_manager,
+    bluetoe::bonding_data_base< bond_db_t, bond_db >,
+    ll::buffer_sizes< 61, 200 >,
+    ll::peripheral_latency_strict,
+    ll::advertising_interval< 40 > >;
+#endif
+
 // link encryption: legacy security manager, bond data base, small buffers and latency
 using ll5 = ll::link_layer< gatt_server_enc, sim_radio_enc,
     ll::connection_callbacks< stack::callback_recorder, recorder >,
@@ -266,7 +286,8 @@ void run_config( const sim::Plan& plan, sim::Result& res, unsigned latency_featu
         acc.has_encryption = true; acc.secret = value_secret; acc.secret_size = sizeof value_secret; acc.secret_handle = secret_handle;
         for ( unsigned i = 0; i != 2; ++i ) acc.bonds.push_back( stack::ll_access::bond{ bond_db_t::ediv[ i ], bond_db_t::rand[ i ], bond_db_t::key( i ) } );
     }
-    acc.tx_allocatable = [&]{ return link->allocate_transmit_buffer( 29 ).size != 0; };
+    // what a link layer control PDU of maximum size takes in the transmit ring (27 + header, + the gap byte of the encryption capable nRF52 radio)
+    acc.tx_allocatable = [&]{ return link->allocate_transmit_buffer( RealFront && Encryption ? 30 : 29 ).size != 0; };
     acc.app = [&]( int kind, std::int64_t a, std::int64_t b ) -> bool {
         switch ( kind )
         {
@@ -307,6 +328,7 @@ void run_stack_part_1( int c, const sim::Plan& plan, sim::Result& res );
 void run_stack_part_2( int c, const sim::Plan& plan, sim::Result& res );
 void run_stack_part_3( int c, const sim::Plan& plan, sim::Result& res );
 void run_stack_part_4( int c, const sim::Plan& plan, sim::Result& res );
+void run_stack_part_5( int c, const sim::Plan& plan, sim::Result& res );
 
 //                                              features: bit1 unack, bit2 rx-not-empty, bit3 tx-not-empty, bit4 rx-more-data, bit5 always (bit0: pending tx data)
 #if STACK_PART == 0
@@ -348,13 +370,39 @@ void run_stack_part_3( int c, const sim::Plan& plan, sim::Result& res )
     case 9:  run_config< ll2n, false, false, true, false, false, true >( plan, res, 1 | 16, 20, 20, 0, 61, 61 ); break;
     }
 }
-#else
+#elif STACK_PART == 4
 void run_stack_part_4( int c, const sim::Plan& plan, sim::Result& res )
 {
     switch ( c )
     {
     case 10: run_config< ll3n, false, true, false, false, false, true >( plan, res, 4 | 2, 500, 1000, 0, 200, 61 ); break;
     case 11: run_config< ll4n, true, false, false, true, false, true >( plan, res, 1 | 2 | 4 | 8 | 16, 500, 50, 2, 61, 61 ); break;
+    }
+}
+#else
+// the RNG and ECB registers the binding's security tool box works with (shim/nrf.h): a counter and AES-128 from OpenSSL
+namespace {
+    std::uint8_t part5_rng_state = 0;
+    std::uint8_t part5_rng() { part5_rng_state = static_cast< std::uint8_t >( part5_rng_state * 37 + 11 ); return part5_rng_state; }
+    void part5_ecb( std::uint8_t* key_clear_cipher )
+    {
+        EVP_CIPHER_CTX* ctx = EVP_CIPHER_CTX_new();
+        int len = 0;
+        EVP_EncryptInit_ex( ctx, EVP_aes_128_ecb(), nullptr, key_clear_cipher, nullptr );
+        EVP_CIPHER_CTX_set_padding( ctx, 0 );
+        EVP_EncryptUpdate( ctx, key_clear_cipher + 32, &len, key_clear_cipher + 16, 16 );
+        EVP_CIPHER_CTX_free( ctx );
+    }
+}
+void run_stack_part_5( int c, const sim::Plan& plan, sim::Result& res )
+{
+    part5_rng_state = 0;
+    nrf_shim::rng_source = &part5_rng;
+    nrf_shim::ecb_engine = &part5_ecb;
+    switch ( c )
+    {
+    case 12: run_config< ll5n, false, false, false, false, true, true >( plan, res, 1 | 2 | 4 | 8 | 16, 500, 40, 0, 61, 61 ); break;
+    case 13: run_config< ll6n, false, false, false, false, true, true >( plan, res, 1 | 16, 500, 40, 0, 200, 61 ); break;
     }
 }
 #endif
@@ -368,7 +416,7 @@ struct stack_harness : sim::Harness
     std::vector< std::string > properties() const override { return { "C20", "C21", "C22", "C23", "C24", "C25", "C27", "C28", "C29" }; }
     std::string nontrivial_rule( const std::string& ) const override
     {
-        return "seeded plans against the whole peripheral (12 link layer configurations: 5 option sets, each on the contract radio of the harness and on the real nRF52 radio front end, and two with link encryption, a legacy security manager and a bond data base): scanners (random and public addresses) and initiators with well formed and malformed requests, a reference central with drifting clock "
+        return "seeded plans against the whole peripheral (14 link layer configurations: 5 option sets plus 2 with link encryption, a legacy security manager and a bond data base, each on the contract radio of the harness and on the real nRF52 radio front end): scanners (random and public addresses) and initiators with well formed and malformed requests, a reference central with drifting clock "
                "(CSA#1, anchors, ARQ, MD bursts, LL control PDUs of every opcode and length, connection/channel-map/PHY updates with legal and illegal instants), application calls between events "
                "(notify/indicate with event cancellation, disconnect, peripheral initiated procedures, white list, advertising map/start/stop), air faults attached to connection events "
                "(loss or CRC error towards the peripheral, loss towards the central, silent central); non-trivial = >=3 advertising PDUs and >=5 connection events (advertising properties: >=3 PDUs); distinct = distinct trace hashes";
@@ -376,9 +424,9 @@ struct stack_harness : sim::Harness
     std::vector< std::string > real_components() const override
     {
         return { "bluetoe/link_layer/link_layer.hpp", "advertising.hpp", "peripheral_latency.hpp", "channel_map.cpp", "delta_time.cpp", "connection_callbacks.hpp + utility/ring.hpp", "white_list.hpp",
-                 "ll_l2cap_sdu_buffer.hpp", "ll_data_pdu_buffer.hpp", "ring_buffer.hpp", "l2cap.hpp", "server.hpp (small GATT server)", "configurations 7..11: bindings/nordic/nrf52/include/bluetoe/nrf52.hpp (radio front end: scheduling, radio interrupt handler, scan request check, run loop)" };
+                 "ll_l2cap_sdu_buffer.hpp", "ll_data_pdu_buffer.hpp", "ring_buffer.hpp", "l2cap.hpp", "server.hpp (small GATT server)", "configurations 7..13: bindings/nordic/nrf52/include/bluetoe/nrf52.hpp (radio front end: scheduling, radio interrupt handler, scan request check, run loop)" };
     }
-    std::vector< std::string > stub_components() const override { return { "configurations 0..6: radio (harness/sim_radio.hpp: scheduled_radio contract incl. scan request handling)", "configurations 7..11: the Hardware abstraction below nrf52.hpp (harness/nrf_bridge.hpp; nrf52.cpp is not compiled)", "central / scanners / initiators (reference, from the Core specification)", "application", "air", "clocks of both devices" }; }
+    std::vector< std::string > stub_components() const override { return { "configurations 0..6: radio (harness/sim_radio.hpp: scheduled_radio contract incl. scan request handling)", "configurations 7..13: the Hardware abstraction below nrf52.hpp (harness/nrf_bridge.hpp; nrf52.cpp is not compiled); configurations 12, 13 use the binding's security_tool_box.cpp + uECC over emulated RNG / ECB registers", "central / scanners / initiators (reference, from the Core specification)", "application", "air", "clocks of both devices" }; }
     std::uint64_t default_runs( const std::string&, bool thorough ) const override { return thorough ? 6000000 : 200000; }
     std::vector< std::string > op_names() const override { return { "run", "scan_request", "connect_request", "air_fault", "central_control", "central_update", "central_l2cap", "app", "central_terminate", "central_encryption" }; }
 
@@ -387,9 +435,10 @@ struct stack_harness : sim::Harness
         sim::Rng rng( seed );
         sim::Plan p;
         p.harness = name(); p.property = property; p.seed = seed;
-        p.config = static_cast< int >( rng.below( 12 ) );
-        if ( property == "C28" ) p.config = 5 + static_cast< int >( rng.below( 2 ) );
-        static const int own_sca[ 12 ] = { 500, 100, 20, 500, 500, 500, 500, 500, 100, 20, 500, 500 };
+        p.config = static_cast< int >( rng.below( 14 ) );
+        if ( property == "C28" ) { static const int enc_cfg[ 4 ] = { 5, 6, 12, 13 }; p.config = enc_cfg[ rng.below( 4 ) ]; }
+        static const int own_sca[ 14 ] = { 500, 100, 20, 500, 500, 500, 500, 500, 100, 20, 500, 500, 500, 500 };
+        const bool enc_cfg = p.config == 5 || p.config == 6 || p.config == 12 || p.config == 13;
         // the peripheral's clock error: inside its declared accuracy, extremes likely
         const int sel = static_cast< int >( rng.below( 5 ) );
         p.knobs[ "p_drift_ppm" ] = sel == 0 ? own_sca[ p.config ] : sel == 1 ? -own_sca[ p.config ] : sel == 2 ? 0 : rng.range( -own_sca[ p.config ], own_sca[ p.config ] );
@@ -405,7 +454,7 @@ struct stack_harness : sim::Harness
         for ( unsigned i = 0; i != n_ops; ++i )
         {
             const unsigned x = static_cast< unsigned >( rng.below( 100 ) );
-            if ( ( p.config == 5 || p.config == 6 ) && rng.chance( property == "C28" ? 40 : 15 ) )
+            if ( enc_cfg && rng.chance( property == "C28" ? 40 : 15 ) )
             {
                 // link encryption: procedures of an honest central, single PDUs of a hostile one, accesses to the protected characteristic
                 static const int kinds[] = { 0, 0, 0, 1, 2, 2, 3, 3, 4, 5, 6, 6, 6, 7, 7 };
@@ -481,13 +530,14 @@ struct stack_harness : sim::Harness
 
     void execute( const sim::Plan& plan, sim::Result& res ) const override
     {
-        const int c = ( ( plan.config % 12 ) + 12 ) % 12;
+        const int c = ( ( plan.config % 14 ) + 14 ) % 14;
         res.note( "config %d", c );
         if ( c < 3 ) run_stack_part_0( c, plan, res );
         else if ( c < 5 ) run_stack_part_1( c, plan, res );
         else if ( c < 7 ) run_stack_part_2( c, plan, res );
         else if ( c < 10 ) run_stack_part_3( c, plan, res );
-        else run_stack_part_4( c, plan, res );
+        else if ( c < 12 ) run_stack_part_4( c, plan, res );
+        else run_stack_part_5( c, plan, res );
     }
 
     std::vector< sim::Op > simplify( const sim::Plan& plan, std::size_t i ) const override
